@@ -110,7 +110,9 @@ fn band<T: Sc>(t: &mut Toks, cx: &mut Ctx, to_q: Option<fn(&T) -> Option<Q>>) ->
                 match &sv {
                     Ok(u) => { cx.check(u.size() == n, "solve: wrong length");
                         if T::is_exact() { if let Ok(Some(xs)) = guarded(|| exact_solve(&dq, &bq)) { cx.check(u.vec.iter().map(|z| conv(z).unwrap()).collect::<Vec<_>>() == xs, "solve differs from the exact solution of the dense system"); } }
-                        else { cx.check(u.vec.iter().all(|z| z.finite()), "nonsingular system: non-finite solution");
+                        else { let numsing = guarded(|| { let mut dm = Matrix::<T>::new(n, n, T::zero()); for r in 0..n { for c in 0..n { dm[(r, c)] = d[r][c]; } } crate::c01::ref_zero_pivot_column(&dm) }).unwrap_or(false);
+                            cx.meta("numerically_singular", numsing as usize);
+                            cx.check(u.vec.iter().all(|z| z.finite()), &format!("nonsingular system: non-finite solution{}", if numsing { " [numerically singular to working precision: a computed pivot sub-column of the dense twin is exactly zero, Gaussian elimination cannot proceed in this arithmetic]" } else { "" }));
                             let an = (0..n).map(|r| (0..n).map(|c| d[r][c].mag64()).sum::<f64>()).fold(0.0, f64::max); let un = u.vec.iter().map(|z| z.mag64()).fold(0.0, f64::max);
                             let mut rn = 0.0f64; for r in 0..n { let mut acc = T::zero(); for c in 0..n { acc += d[r][c] * u[c]; } rn = rn.max((acc - rhs[r]).mag64()); }
                             cx.check(rn <= 1e-11 * (an * un + rhs.vec.iter().map(|z| z.mag64()).fold(0.0, f64::max)) + 1e-300 || !rn.is_finite(), "backward error too large"); } }
